@@ -358,7 +358,7 @@ PROPS["C06"] = dict(
           "every step is certainly past it). Every record carries a unique tag and a version, so what Get/List show identifies the delivery "
           "it came from. After every refresh that returned nil the clauses of the statement are checked for every provider; expiry uses "
           "[before,after] wall-clock intervals and only asserts what is certain. distinct_nontrivial = distinct (configuration, first steps) histories."),
-    floors={"quick": {"refreshes_ok": 1000, "cancelled_then_successful_refresh": 200, "refreshes_overlapping": 300, "negative_hits": 30, "expiries_observed": 100,
+    floors={"quick": {"refreshes_overlapping_a_cancelled_one": 1500, "refreshes_ok": 1000, "cancelled_then_successful_refresh": 200, "refreshes_overlapping": 300, "negative_hits": 30, "expiries_observed": 100,
                       "miss_fetches_positive": 25, "publications_with_merge": 300, "publications_without_merge": 300, "strangers_start_being_reported": 200}},
     level_text=("Exploration: the real cache is driven through thousands of seeded histories and compared after each step with the clauses of the "
                 "property (presence, freshest record, provenance of the record, monotonicity, TTL, negative caching)."),
